@@ -237,7 +237,7 @@ class Analyzer:
             return None if a is None or b is None else a + b
         return None
 
-    def ub(self, st, sym, depth=3):
+    def ub(self, st, sym, depth=6):
         """best known upper bound of a symbol"""
         if sym == Z:
             return 0
@@ -350,11 +350,11 @@ class Analyzer:
             k = ("N", mir.show(b.term_local(l), 240))
             st.eq(k, Z, len(rv["ops"]))
         if not is_int:
-            if not self.seed_array(st, l) and r == "use" and rv["o"]["k"] in ("cp", "mv") and "p" not in rv["o"]["p"]:
+            if not self.seed_array(st, l) and r == "use" and rv["o"]["k"] in ("cp", "mv"):
                 ty = b.locals[l]["ty"]
                 if any(x in ty for x in ("[u8]", "bytes::Bytes", "Vec<u8>", "&str", "String")):
                     dk = ("N", mir.show(b.term_local(l), 240))
-                    sk = ("N", mir.show(b.term_local(rv["o"]["p"]["l"]), 240))
+                    sk = ("N", mir.show(b.term_operand(rv["o"]), 240))
                     if dk != sk:
                         st.kill(dk)
                         st.eq(dk, sk, 0)
@@ -461,7 +461,12 @@ class Analyzer:
                         nxt.append(b)
             frontier = nxt
         cands = [e for e in eq if not (isinstance(e, tuple) and e[0] == "S")]
-        return min(cands or [sym], key=repr)
+
+        def rank(e):
+            if isinstance(e, tuple) and e[0] == "L":
+                return (0 if self.b.locals[e[1]].get("u") else 1, e[1], "")
+            return (2, 0, repr(e))
+        return min(cands or [sym], key=rank)
 
     def _diff_lb(self, st, la, lb):
         """largest c with la >= lb + c provable (tries a few constants)"""
@@ -609,7 +614,8 @@ class Analyzer:
         if name.startswith("put_") or name == "put":
             recv_ty = b.locals[args[0]["p"]["l"]]["ty"] if args and args[0]["k"] in ("cp", "mv") and "p" not in args[0]["p"] else ""
             if any(g in recv_ty for g in GROWABLE):
-                st.kill(a0key, eliminate=False)
+                for k_ in [k_ for k_ in st.f if k_[1] == a0key]:
+                    del st.f[k_]
                 return
             s = newsite("call:%s" % name, "BufMut on a fixed slice requires remaining_mut")
             s.proven = False
@@ -728,6 +734,14 @@ class Analyzer:
             if n:
                 st.add(n[0], a0key, -n[1])
             return
+        if name in ("push", "extend_from_slice", "extend", "push_str", "push_back", "append", "put_slice", "put_u8", "put_u16", "put_u32",
+                    "put_u64", "put", "put_bytes", "reserve") and args:
+            recv_ty = b.locals[args[0]["p"]["l"]]["ty"] if args[0]["k"] in ("cp", "mv") and "p" not in args[0]["p"] else ""
+            if any(g in recv_ty for g in GROWABLE):
+                # growable buffers only grow: lower bounds on the length survive, upper bounds do not
+                for k_ in [k_ for k_ in st.f if k_[1] == a0key]:
+                    del st.f[k_]
+                return
         if name in ("resize",) and len(args) >= 2:
             n = self.lf(args[1])
             st.kill(a0key)
@@ -783,6 +797,13 @@ class Analyzer:
             st.kill(res_key)
             st.eq(res_key, Z, 0)
             return
+        # ---- helpers returning one of a few constants (tag_len(), key_len(), ...)
+        hr = getattr(Analyzer, "HELPER_RANGES", {}).get(path)
+        if hr is not None and res_int:
+            st.kill(("L", dl))
+            st.add(("L", dl), Z, hr[0])
+            st.add(Z, ("L", dl), -hr[1])
+            return
         # ---- callee summaries (preconditions on buffer parameters)
         summ = self.summaries.get(path)
         if summ:
@@ -837,10 +858,18 @@ class Analyzer:
                 break
         ubx = self.ub(st, x)
         via_sum = []
+        cx = self.canon(st, x)
         for (a, b_), k in st.f.items():
-            if a == key and isinstance(b_, tuple) and b_ and b_[0] == "S" and x in (b_[1], b_[2]):
-                other = b_[2] if b_[1] == x else b_[1]
-                via_sum.append((other, k - c))       # len >= x + other + k  =>  len - x - c >= other + k - c
+            if isinstance(b_, tuple) and b_ and b_[0] == "S" and cx in (b_[1], b_[2]):
+                # a >= S(x, other) + k ; if len >= a (+k2) then len - x - c >= other + k + k2 - c
+                if a == key:
+                    k2 = 0
+                elif entails(st, key, a, 0, self.typ_ub, depth=4):
+                    k2 = 0
+                else:
+                    continue
+                other = b_[2] if b_[1] == cx else b_[1]
+                via_sum.append((other, k + k2 - c))
         outs = [(b, k) for (a, b), k in st.f.items() if a == key and b != x]
         st.kill(key, eliminate=False)
         for a, k in keep_in:
